@@ -34,7 +34,10 @@ RULE = (
     'empty or holding an unrelated lexicon), is_lmf false for header faults and true for body '
     'faults; 16 further header spellings: is_lmf false => load and add raise, is_lmf true => '
     'the whole valid oracle. The enumerated subcheck applies every class at every position of '
-    'generated documents. Non-trivial: any mutant; a valid document with a reference, either '
+    'generated documents. The bytes subcheck feeds raw bytes (valid documents, byte edits and, in '
+    'the thorough tier, an atheris/libFuzzer campaign of 15000 executions per shard) to the '
+    'implication form: load accepts => is_lmf and scan agrees; load rejects => add rejects and '
+    'the database is unchanged. Non-trivial: any mutant; a valid document with a reference, either '
     'quote, literal white space or a look-alike in what scan_lexicons reads; distinct by '
     '(document, style, mutation).')
 ASSUMPTIONS = [
@@ -672,7 +675,8 @@ def _enumerate_bytes(tier, shard, nshards):
     if tier != 'thorough':
         return
     # coverage-guided campaign in a subprocess (same oracle: check_bytes)
-    seconds = int(os.environ.get('C20_FUZZ_SECONDS', '45'))
+    runs = int(os.environ.get('C20_FUZZ_RUNS', '15000'))
+    seconds = 180       # safety cap only; the campaign is bounded by executions
     work = env.new_dir('c20fuzz')
     corpus, findings = work / 'corpus', work / 'findings'
     corpus.mkdir()
@@ -685,7 +689,7 @@ def _enumerate_bytes(tier, shard, nshards):
     deps = str(env.VERIF_ROOT / '.deps')
     e['PYTHONPATH'] = os.pathsep.join(
         [x for x in (e.get('PYTHONPATH', ''), str(env.VERIF_ROOT), deps) if x])
-    cmd = [sys.executable, '-m', 'wnv.fuzz_c20', '--seconds', str(seconds),
+    cmd = [sys.executable, '-m', 'wnv.fuzz_c20', '--runs', str(runs), '--seconds', str(seconds),
            '--corpus', str(corpus), '--findings', str(findings),
            '--dict', str(work / 'xml.dict'), '--seed', str(vs * 1000 + shard)]
     try:
